@@ -113,7 +113,9 @@ EXPORT errno_t _wmemmove_s_chk(wchar_t *dest, rsize_t dlen, const wchar_t *src,
 #endif
 {
     const rsize_t dmax = dlen * SIZEOF_WCHAR_T;
-    const rsize_t smax = count * SIZEOF_WCHAR_T;
+    /* a count whose size in bytes would wrap around is above every limit */
+    const rsize_t smax =
+        unlikely(count > RSIZE_MAX_MEM) ? (rsize_t)-1 : count * SIZEOF_WCHAR_T;
 
     if (unlikely(count == 0)) {
         return (RCNEGATE(EOK));
